@@ -356,6 +356,7 @@ def run(prog: Program) -> Results:
     from sa.rules import poslint
     poslint.check(prog, res, "R-C04-9")
     filter_in_search(prog, res, "R-C04-10")
+    named_search_states_kind(prog, res, "R-C04-15")
     from sa.rules.c12 import check_bare_names
     check_bare_names(prog, res, "R-C04-14")  # the addressed binding is found by its spelling: one way of writing a name (shared with R-C12-2)
     loop_invariant_guards(prog, res, "R-C04-12")
@@ -528,6 +529,31 @@ def filter_in_search(prog: Program, res: Results, rid: str) -> None:
                             f"{f.key}: `{norm(d)[:70]}` takes the first binding with that name and `{norm(n)}` is tested afterwards: for "
                             f"`users = {{ … }}; users.defaultUserShell = \"zsh\";` the explicit binding is found, the attrpath family is "
                             f"overlooked, and `set users.defaultUserShell` writes into the neighbouring explicit set")
+
+
+def named_search_states_kind(prog: Program, res: Results, rid: str) -> None:
+    """a set may hold an explicit binding `a = …;` and attrpath-derived ones `a.b = …;` under the same name: a walk that says
+    which kind it wants for one segment says so for every segment"""
+    r = res.rule(rid, "the searches of one path walk agree on stating the kind they look for: in a CLI function where some call of "
+                 "_find_named_binding passes `nested=`, every call does — a search without it matches the first binding of either "
+                 "kind, so an attrpath family root is taken for an explicit binding (or the reverse) at that one segment", floor=3)
+    for f in prog.all_functions():
+        if not f.module.endswith("cli/manipulations.py"):
+            continue
+        calls = [c for c in walk_no_nested(f.node) if isinstance(c, ast.Call) and callee(c) == "_find_named_binding"]
+        stated = [c for c in calls if any(k.arg == "nested" for k in c.keywords) or len(c.args) >= 3]
+        if not stated:
+            continue  # a helper that looks for either kind (`_find_binding`)
+        res.analysed_functions.add(f.key)
+        for c in calls:
+            r.instances += 1
+            ok = c in stated
+            r.ob(ok, {"site": f.key, "search": norm(c)[:60]})
+            if not ok:
+                res.add(rid, (f.key, "by-name search without the nested filter its siblings state"), f.loc(c),
+                        f"{f.key}: `{norm(c)[:60]}` does not say whether it looks for an explicit binding or an attrpath-derived one, "
+                        f"while the other searches of this walk do: with `a.b = 1;` in the set, a search for the explicit `a` finds the "
+                        f"family root — e.g. `set @a 2` is refused or rewrites the body instead of creating the let binding")
 
 
 def loop_invariant_guards(prog: Program, res: Results, rid: str) -> None:
